@@ -605,7 +605,7 @@ def _spec_part(wrap_text):
     return wrap_text[m.start():] if m else ""
 
 
-def expand_block(b, overlay, unit_breaks):
+def expand_block(b, overlay, unit_breaks, backend="verus"):
     opts, words = parse_opts(b.args)
     if b.kind == "item":
         relfile, kind, name = words[0], words[1], words[2]
@@ -651,6 +651,8 @@ def expand_block(b, overlay, unit_breaks):
         except LookupError as e:
             raise GenError(str(e))
         raw = src[it.start:it.end]
+        if "as" in words:
+            opts["as"] = words[words.index("as") + 1]
         name = opts.get("as", path.split("::")[-1])
         ex = Extracted(path, relfile, raw, hashlib.sha256(raw.encode()).hexdigest()[:16], "fn")
         text, dropped = rustlex.strip_prefix(raw)
@@ -678,7 +680,7 @@ def expand_block(b, overlay, unit_breaks):
         ex.sig = sig
         has_loops = bool(rustlex.find_loops(body))
         chunks = []
-        if has_loops:
+        if has_loops and backend == "verus":
             chunks.append(Chunk("#[verifier::exec_allows_no_decreases_clause]\n", {"t": "template"}))
         idbase = path
         chunks += process_fn_like(ex, sig, body, b.subs, idbase)
@@ -751,7 +753,7 @@ def expand_block(b, overlay, unit_breaks):
         ex.sig = sigtext
         body = "{\n" + (prologue + "\n" if prologue else "") + "/*vx:region-begin*/\n" + text + "/*vx:region-end*/\n" + (epilogue + "\n" if epilogue else "") + "}\n"
         subs = [Directive("spec", "", spectext, b.lineno)] + [d for d in b.subs if d.kind not in ("wrap",)]
-        chunks = [Chunk("#[verifier::exec_allows_no_decreases_clause]\n", {"t": "template"})]
+        chunks = [Chunk("#[verifier::exec_allows_no_decreases_clause]\n", {"t": "template"})] if backend == "verus" else []
         chunks += process_fn_like(ex, sigtext, body, subs, name)
         ex.rewrites.append({"class": "region-wrap", "pattern": "wrapper signature/prologue/epilogue (hand-written, template line %d)" % b.lineno,
                             "replacement": (sigtext.strip() + " | " + prologue.strip() + " | " + epilogue.strip())[:400], "count": 1})
@@ -859,7 +861,7 @@ def generate(template_path, overlay=None):
                             meta[k].append(x)
                 emit(iparts, p[1], depth + 1)
             else:
-                ex, chunks = expand_block(p[1], overlay, g.breaks)
+                ex, chunks = expand_block(p[1], overlay, g.breaks, meta.get("backend", "verus"))
                 g.extracted.append(ex)
                 g.chunks += chunks
 
